@@ -483,15 +483,37 @@ receives exactly those words. -/
 theorem dd_words {nl dflt ds adds st} (hr : Reach nl dflt ds adds st) {q : Parser} (hq : q ∈ st.parsers)
     (hpub : q.internal = false) (h1 : q.name ≠ hShort) (h2 : q.name ≠ hLong)
     {o : OptSpec} (hp : posSpecs q.opts = [o]) (hn : posN o = .star)
+    (hreq : ∀ o' ∈ q.opts, o'.required = false)
     (hd : destOf o ≠ color ∧ destOf o ≠ noColor) (ws : List Name) :
     ∃ ns, parseArgs cfg st (q.name :: dd :: ws) = .ok ns ∧ ns.get (destOf o) = some (.list ws) := by
-  obtain ⟨sub, hs, hval, hoth⟩ := runParser_dd hp hn ws
+  have hmr : ∀ u, missingReq q.opts u = false := by
+    intro u
+    unfold missingReq
+    apply Bool.eq_false_iff.mpr
+    intro hc
+    obtain ⟨o', ho', hoo⟩ := List.any_eq_true.mp hc
+    simp [hreq o' ho'] at hoo
+  obtain ⟨sub, hs, hval, hoth⟩ := runParser_dd hp hn hmr ws
   have hnc : Has sub noColor := by
     apply has_of_get (v := .bool false)
     rw [hoth noColor (Ne.symm hd.2)]
     exact reach_noColor hr hq
   obtain ⟨ns, hpa, _, hkv, _⟩ := parse_sub hr hq hpub h1 h2 hs hnc
   exact ⟨ns, hpa, hkv _ _ hd.1 hd.2 hval⟩
+
+/-- **`required=True`.** A command whose table holds a required option — its own, one inherited from a
+parent or an internal set, or one added to the `ArgParser` — rejects an argument list that supplies none
+of the options (here: the empty one). The acceptance theorems above therefore ask for `finishable`, which
+excludes required options; with them, exactly the argument lists that supply them can be accepted. -/
+theorem required_enforced {nl dflt ds adds st} (hr : Reach nl dflt ds adds st) {q : Parser} (hq : q ∈ st.parsers)
+    (hpub : q.internal = false) (h1 : q.name ≠ hShort) (h2 : q.name ≠ hLong) (hpos : posOk q.opts = true)
+    {o : OptSpec} (ho : o ∈ q.opts) (hio : o.isOpt = true) (hreq : o.required = true) :
+    parseArgs cfg st [q.name] = .error (.exit 2) := by
+  have hm : missingReq q.opts [] = true := by
+    unfold missingReq
+    exact List.any_eq_true.mpr ⟨o, ho, by simp [hio, hreq]⟩
+  rw [command_dispatch hr hq hpub h1 h2, runParser_eq hpos]
+  simp [ambiguousIn, runP, finish, PS.init, hm]
 
 /-! ### the default command -/
 
